@@ -188,6 +188,42 @@ int main()
         h3.release();
         h2.release();
     }
+    // ---- reference parameters reach an ADAPTED slot as the very objects that were emitted ("unmodified": no copy, no slicing) -----
+    {
+        struct Base {
+            virtual ~Base() = default;
+            virtual int kind() const { return 1; }
+            int payload = 11;
+        };
+        struct Derived : Base {
+            int kind() const override { return 2; }
+            int extra = 22;
+        };
+        static const Base *g_seen = nullptr;
+        Signal<const Base &, int> s;
+        Derived d;
+        // fewer parameters than emitted arguments (adapted through bind_first), and one bound value in front
+        auto hFew = s.connect([](const Base &b) { g_seen = &b; g_got = { b.kind(), b.payload }; });
+        s.emit(d, 5);
+        ++g_cells;
+        if (g_seen != &d) {
+            ++g_fail;
+            std::printf("FAIL adapted slot, const Base& parameter: the slot received a different object than the one emitted\n");
+        }
+        expect("adapted slot, const Base& parameter: dynamic type and value of the emitted object", { 2, 11 });
+        hFew.block(true);
+        g_seen = nullptr;
+        auto hBound = s.connect([](int k, const Base &b) { g_seen = &b; g_got = { k, b.kind(), b.payload }; }, 7);
+        s.emit(d, 6);
+        ++g_cells;
+        if (g_seen != &d) {
+            ++g_fail;
+            std::printf("FAIL bound value + const Base& parameter: the slot received a different object than the one emitted\n");
+        }
+        expect("bound value + const Base& parameter", { 7, 2, 11 });
+        hFew.release();
+        hBound.release();
+    }
     // ---- bound values of a move-sensitive class type, every emission of several: "in order and unmodified" must hold each time,
     //      whether every parameter is bound or some are left to the emission ------------------------------------------------
     {
